@@ -17,6 +17,7 @@
 # -----------------------------------------------------------------------------
 import asyncio as aio
 import logging
+import struct
 from .. import encoding as enc
 from .. import security as sec
 from .. import types
@@ -76,10 +77,13 @@ class NfdRegister(PrefixRegisterer):
                     break
                 await aio.sleep(0.001)
             try:
-                await self.app.express(
+                _, reply, _ = await self.app.express(
                     nfd_mgmt.make_command_v2('rib', 'unregister', self.app.face, name=name),
                     app_param=b'', signer=sec.DigestSha256Signer(for_interest=True),
                     validator=pass_all, lifetime=1000)
-                return True
+                try:
+                    return nfd_mgmt.parse_response(reply)['status_code'] == 200
+                except (enc.DecodeError, ValueError, IndexError, TypeError, struct.error):
+                    return False
             except (types.InterestNack, types.InterestTimeout, types.InterestCanceled, types.ValidationFailure):
                 return False
